@@ -85,7 +85,7 @@ def check(ctx):
     polyak(ctx, fg)
     loop_discipline(ctx)
     from ..effects import input_purity
-    input_purity(ctx, "R13.7", modules=("tdgl.solver",), min_functions=30, consequence="the induced vector potential stored in a finished Solution (handed in as seed) is overwritten by the next run's "
+    input_purity(ctx, "R13.7", modules=("tdgl.solver.screening",), functions=("TDGLSolver.get_induced_vector_potential", "TDGLSolver.update"), min_functions=4, consequence="the induced vector potential stored in a finished Solution (handed in as seed) is overwritten by the next run's "
                                "iterate: the stored potential no longer reproduces the Biot-Savart sum of the stored currents")
     ctx.assume("prefactor mu0/(4 pi) K0/A0 and the xi^2 area scaling are inside `self.areas` (checked with exact unit factors by C08 R08.1)")
     ctx.decline("convergence of the fixed-point iteration; 'stored potential reproduces the sum within a modest multiple of the "
